@@ -1,4 +1,5 @@
 import Mastverif.Model.Ptr
+import Mastverif.Model.PtrIter
 import Mastverif.Model.Store
 import Std.Data.HashMap
 /-!
@@ -26,6 +27,10 @@ structure PSt where
   /-- a store-load failure has been injected: the functional model (which knows no faults) no
       longer follows, the cross-check of the two models is off for the rest of the case -/
   faulted : Bool := false
+  /-- what the last mirrored `get` / `iter` returned at the object level, in the protocol's format -/
+  lastVal : String := ""
+  /-- an object-level `get` / `iter` answered differently from the functional model -/
+  valBad : List String := []
 
 def pfuel : Nat := 100000
 
@@ -144,15 +149,16 @@ def pmirror (e : Enc) (layer : Nat → Nat) (bf : Nat) (p : PSt) (toks : List St
     match nat slot >>= (p.trees[·]?), nat k with
     | some t, some k =>
       match get E t pfuel k p.ps with
-      | .ok _ ps' => fin { p with ps := ps', last := "ok" }
+      | .ok r ps' => fin { p with ps := ps', last := "ok", lastVal := match r with | some v => s!"some {v}" | none => "none" }
       | .err ps' => fin { p with ps := ps', last := "err" }
       | r => fin { p with last := outcomeStr (resOutcome r) }
     | _, _ => p
   | ["iter", slot] =>
     match nat slot >>= (p.trees[·]?) with
     | some t =>
-      match iterAll E pfuel t.root p.ps with
-      | .ok _ ps' => fin { p with ps := ps', last := "ok" }
+      -- `iterEntries` is `iterAll` on the state (Lemmas/RefIterEntries.lean: iterEntries_erase)
+      match iterEntries E pfuel t.root p.ps with
+      | .ok es ps' => fin { p with ps := ps', last := "ok", lastVal := "[" ++ ",".intercalate (es.map fun (k, v) => s!"{k}={v}") ++ "]" }
       | .err ps' => fin { p with ps := ps', last := "err" }
       | r => fin { p with last := outcomeStr (resOutcome r) }
     | none => p
@@ -189,7 +195,7 @@ def pmirror (e : Enc) (layer : Nat → Nat) (bf : Nat) (p : PSt) (toks : List St
     the tree the functional model holds in the same slot, up to flags on absent links -/
 def pcross (p : PSt) (ftrees : Std.HashMap Nat Tree) : String := Id.run do
   if p.faulted then return "ok"
-  let mut bad : List String := []
+  let mut bad : List String := p.valBad
   for (sl, t) in p.trees.toList do
     match ftrees[sl]?, absTree p.ps pfuel t with
     | some ft, some pt =>
@@ -210,3 +216,14 @@ def pcommand (p : PSt) (toks : List String) : Option (PSt × String) :=
   | ["pgraph"] => some (p, pgraph p)
   | ["ptick"] => some (p, toString p.ps.tick)
   | _ => none
+
+/-- after a mirrored `get` / `iter` that succeeded at the object level: its answer must be the
+    functional model's answer to the same line -/
+def pcheckVal (p : PSt) (toks : List String) (resp : String) : PSt :=
+  if !p.on || p.faulted then p else
+  match toks with
+  | [cmd, slot] | [cmd, slot, _] =>
+    if (cmd == "get" || cmd == "iter") && p.last == "ok" && (slot.toNat?.bind (p.trees[·]?)).isSome && p.lastVal != resp then
+      { p with valBad := p.valBad ++ [s!"{cmd}{slot}:{p.lastVal}"] }
+    else p
+  | _ => p
